@@ -31,7 +31,9 @@ def trim_cases(run, h):
     res = tlc("Trim", cfg, timeout=3000)
     require_tlc_ok(res, cfg)
     run.add_tlc(res, f"{cfg}: InsideRecord, NearestIsClosest")
-    for c in [c for c in res.cases if isinstance(c, dict) and "qs" in c]:
+    allc = [c for c in res.cases if isinstance(c, dict) and "qs" in c]
+    trim_twice(run, h, allc)
+    for c in allc:
         n, fs, qs, qe = c["n"], c["fs"], c["qs"], c["qe"]
         dt = 1.0 / fs
         start, end = float(Fraction(qs, 4 * fs)), float(Fraction(qe, 4 * fs))
@@ -70,6 +72,61 @@ def trim_cases(run, h):
                 run.violation("trim:SeismicRecording3C:components-differ", f"components trimmed differently for {rep}", rep)
         nt = (n, fs, qs, qe) if not c["refused"] and len(allowed) == 1 else None
         run.case(nt, sample=dict(n=n, fs=fs, start=start, end=end, keeps=c["allowed"]) if nt and fs == 75 and len(run.samples) < 2 else None)
+
+
+def trim_twice(run, h, cases):
+    """A trimmed record is a record again (its time axis restarts at 0): case A followed, on the SAME object, by a case B of the
+    specification for a record with as many samples as A keeps - composition of the single-trim relation."""
+    rng = np.random.RandomState(run.seed + 18)
+    by = {}
+    for c in cases:
+        by.setdefault((c["n"], c["fs"]), []).append(c)
+    firsts = [c for c in cases if not c["refused"] and len(c["allowed"]) == 1 and c["allowed"][0][0] > 0]
+    rng.shuffle(firsts)
+    done = 0
+    for A in firsts:
+        a0, a1 = A["allowed"][0]
+        seconds = [c for c in by.get((a1 - a0 + 1, A["fs"]), []) if c["refused"] or len(c["allowed"]) == 1]
+        if not seconds:
+            continue
+        for B in [seconds[i] for i in rng.choice(len(seconds), min(3, len(seconds)), replace=False)]:
+            if B["qe"] == 4 * (B["n"] - 1):
+                continue        # knife edge of the record end (see the single-trim cases)
+            fs, n = A["fs"], A["n"]
+            dt = 1.0 / fs
+            ramp = np.arange(n, dtype=float)
+            for what in ("TimeSeries", "SeismicRecording3C"):
+                o = h.TimeSeries(ramp, dt) if what == "TimeSeries" else h.SeismicRecording3C(h.TimeSeries(ramp, dt), h.TimeSeries(ramp, dt), h.TimeSeries(ramp, dt))
+                get = (lambda: o.amplitude) if what == "TimeSeries" else (lambda: o.vt.amplitude)
+                rep = dict(kind="trim-twice", n=n, fs=fs, first=[A["qs"], A["qe"]], second=[B["qs"], B["qe"]])
+                o.trim(float(Fraction(A["qs"], 4 * fs)), float(Fraction(A["qe"], 4 * fs)))
+                try:
+                    o.trim(float(Fraction(B["qs"], 4 * fs)), float(Fraction(B["qe"], 4 * fs)))
+                    refused = False
+                except IndexError:
+                    refused = True
+                a = get()
+                got = (int(a[0]), int(a[-1])) if len(a) else (-1, -1)
+                if B["refused"]:
+                    want = (a0, a1)
+                    if not refused:
+                        run.violation(f"trim-twice:{what}:accepted-invalid", f"{what} of {n} samples at {fs} Hz trimmed to samples {a0}..{a1}, then trim({B['qs']}/(4*{fs}), {B['qe']}/(4*{fs})) "
+                                      f"on the {a1 - a0 + 1}-sample record was accepted (kept {got})", rep)
+                        continue
+                else:
+                    b0, b1 = B["allowed"][0]
+                    want = (a0 + b0, a0 + b1)
+                    if refused:
+                        run.violation(f"trim-twice:{what}:refused-valid", f"{what}: second trim refused although it lies inside the trimmed record; {rep}", rep)
+                        continue
+                if got != want:
+                    run.violation(f"trim-twice:{what}:wrong-samples", f"{what} of {n} samples at {fs} Hz trimmed to samples {a0}..{a1}, then trim({B['qs']}/(4*{fs}), {B['qe']}/(4*{fs})): "
+                                  f"kept original samples {got[0]}..{got[1]}, the trimmed record's own time axis gives {want[0]}..{want[1]}", rep)
+            run.case(("trim-twice", n, fs, A["qs"], A["qe"], B["qs"], B["qe"]))
+            done += 1
+        if done >= (300 if run.quick else 3000):
+            break
+    run.notes["trim_pairs"] = done
 
 
 class Driver:
